@@ -1,0 +1,13 @@
+//go:build verif
+
+package generator
+
+// VerifHook, when set, is called at the trace points of the asynchronous
+// post-process/persist loop. It exists only in builds with -tags verif.
+var VerifHook func(event, path string)
+
+func vhook(event, path string) {
+	if h := VerifHook; h != nil {
+		h(event, path)
+	}
+}
